@@ -111,7 +111,7 @@ VARIABLES
     err,        \* s.err: the first error, NIL if none
     writer,     \* [pc : select | write | done, buf, inNil, reqNil, begin]
     toAgent,    \* [q, closed]
-    agent,      \* [seen, restored, faulted, alive]
+    agent,      \* [seen, restored, faulted, fkind, alive]
     fromAgent,  \* [q, closed]
     reader,     \* [pc : read | got | out | done, msg, hasBegin/begin (s.begin), inBatch/points (s.points), pend]
     kaBuf,      \* entries in s.keepalive (capacity 1)
@@ -134,7 +134,7 @@ Init ==
     /\ err = NIL
     /\ writer = [pc |-> "select", buf |-> <<>>, inNil |-> FALSE, reqNil |-> FALSE, begin |-> NIL]
     /\ toAgent = [q |-> <<>>, closed |-> FALSE]
-    /\ agent = [seen |-> 0, restored |-> NIL, faulted |-> FALSE, alive |-> TRUE]
+    /\ agent = [seen |-> 0, restored |-> NIL, faulted |-> FALSE, fkind |-> NIL, alive |-> TRUE]
     /\ fromAgent = [q |-> <<>>, closed |-> FALSE]
     /\ reader = [pc |-> "read", msg |-> NIL, hasBegin |-> FALSE, begin |-> NIL, inBatch |-> FALSE, points |-> <<>>, pend |-> NIL]
     /\ kaBuf = 0 /\ respC = [k \in ReqKinds |-> <<>>]
@@ -279,14 +279,19 @@ WWrite ==
 Echo(w) == w
 \* what a faulty peer sends instead of the echo of a data message
 FaultMsgs(f, w) ==
-    CASE f = "endNoBegin"    -> <<[t |-> "end", name |-> "x", tags |-> <<>>, tmax |-> 0]>>
-      [] f = "beginNeg"      -> <<[t |-> "begin", name |-> "x", tags |-> <<>>, byName |-> FALSE, size |-> -1],
-                                  [t |-> "end", name |-> "x", tags |-> <<>>, tmax |-> 0]>>
+    CASE f = "endNoBegin"    -> <<[t |-> "end", name |-> "junk", tags |-> <<>>, tmax |-> 0]>>
+      [] f = "beginNeg"      -> <<[t |-> "begin", name |-> "junk", tags |-> <<>>, byName |-> FALSE, size |-> -1],
+                                  [t |-> "end", name |-> "junk", tags |-> <<>>, tmax |-> 0], w>>
+      [] f = "pointGap"      -> <<[t |-> "begin", name |-> "junk", tags |-> <<>>, byName |-> FALSE, size |-> 1],
+                                  [t |-> "end", name |-> "junk", tags |-> <<>>, tmax |-> 0], w>>
       [] f = "unknown"       -> <<[t |-> "none"]>>      \* empty frame: a Response without a message
+      [] f = "readerr"       -> <<[t |-> "garbage"]>>   \* bytes ReadMessage refuses: oversized header, no protobuf, truncated frame
       [] f = "errorResp"     -> <<[t |-> "error"]>>
-      [] f = "unsolSnapshot" -> <<[t |-> "snapshot", rid |-> 0, val |-> "stale"], w>>
-      [] f = "unsolRestore"  -> <<[t |-> "restore", rid |-> 0, val |-> "stale"], w>>
-      [] f = "unsolKeepalive" -> <<[t |-> "keepalive"], w>>
+      [] f = "unsolInfo"     -> <<[t |-> "info", rid |-> 0, val |-> "stale"], [t |-> "info", rid |-> 0, val |-> "stale"], w>>
+      [] f = "unsolInit"     -> <<[t |-> "init", rid |-> 0, val |-> "stale"], [t |-> "init", rid |-> 0, val |-> "stale"], w>>
+      [] f = "unsolSnapshot" -> <<[t |-> "snapshot", rid |-> 0, val |-> "stale"], [t |-> "snapshot", rid |-> 0, val |-> "stale"], w>>
+      [] f = "unsolRestore"  -> <<[t |-> "restore", rid |-> 0, val |-> "stale"], [t |-> "restore", rid |-> 0, val |-> "stale"], w>>
+      [] f = "unsolKeepalive" -> <<[t |-> "keepalive"], [t |-> "keepalive"], w>>
 AResp(w) ==
     CASE w.t \in {"info", "init"} -> [t |-> w.t, rid |-> w.rid, val |-> "ok"]
       [] w.t = "snapshot" -> [t |-> "snapshot", rid |-> w.rid, val |-> [seen |-> agent.seen, restored |-> agent.restored]]
@@ -301,19 +306,26 @@ AStep ==
                /\ \/ /\ Len(fromAgent.q) < PipeCap
                      /\ fromAgent' = [fromAgent EXCEPT !.q = Append(@, Echo(w))]
                      /\ agent' = [agent EXCEPT !.seen = @ + 1]
-                  \/ \E f \in Faults \ {"close"} :
-                     /\ ~agent.faulted /\ Len(fromAgent.q) + 1 < PipeCap
+                  \/ \E f \in Faults \ {"close", "die"} :
+                     /\ ~agent.faulted /\ Len(fromAgent.q) + 2 < PipeCap
                      /\ fromAgent' = [fromAgent EXCEPT !.q = @ \o FaultMsgs(f, w)]
-                     /\ agent' = [agent EXCEPT !.seen = @ + 1, !.faulted = TRUE]
+                     /\ agent' = [agent EXCEPT !.seen = @ + 1, !.faulted = TRUE, !.fkind = f]
                   \/ /\ "close" \in Faults /\ ~agent.faulted     \* the peer goes away at a frame boundary
                      /\ fromAgent' = [fromAgent EXCEPT !.closed = TRUE]
-                     /\ agent' = [agent EXCEPT !.seen = @ + 1, !.faulted = TRUE, !.alive = FALSE]
+                     /\ agent' = [agent EXCEPT !.seen = @ + 1, !.faulted = TRUE, !.fkind = "close", !.alive = FALSE]
           ELSE /\ Len(fromAgent.q) < PipeCap
                /\ fromAgent' = [fromAgent EXCEPT !.q = Append(@, AResp(w))]
                /\ agent' = IF w.t = "restore" THEN [agent EXCEPT !.restored = w.data] ELSE agent
                /\ UNCHANGED wireSeen
     /\ UNCHANGED <<pump, caller, results, stopper, stopRet, outs, outClosed, owner, mu, want, flags, err, writer,
                    reader, kaBuf, respC, ticker, watcher, crashed, diag>>
+\* the peer dies (process killed, connection reset) at an arbitrary moment: both directions are gone
+AgentDies ==
+    /\ "die" \in Faults /\ agent.alive
+    /\ agent' = [agent EXCEPT !.alive = FALSE, !.faulted = TRUE, !.fkind = "die"]
+    /\ fromAgent' = [fromAgent EXCEPT !.closed = TRUE]
+    /\ UNCHANGED <<pump, caller, results, stopper, stopRet, outs, outClosed, owner, mu, want, flags, err, writer, toAgent,
+                   reader, kaBuf, respC, ticker, watcher, crashed, diag, wireSeen>>
 \* EOF on its input: Handler.Stop closes Responses, the write loop ends and closes the output
 AEOF ==
     /\ agent.alive /\ toAgent.q = <<>> /\ toAgent.closed
@@ -329,15 +341,18 @@ RFail(e) ==
     /\ SetErr(e) /\ outClosed' = TRUE /\ want' = want \cup {"R"}
 RRead ==
     /\ reader.pc = "read"
-    /\ \/ /\ fromAgent.q # <<>>
+    /\ \/ /\ fromAgent.q # <<>> /\ Head(fromAgent.q).t # "garbage"
           /\ reader' = [reader EXCEPT !.pc = "got", !.msg = Head(fromAgent.q)]
           /\ fromAgent' = [fromAgent EXCEPT !.q = Tail(@)]
-          /\ UNCHANGED <<outClosed>>
+          /\ UNCHANGED <<outClosed, err, want>>
+       \/ /\ fromAgent.q # <<>> /\ Head(fromAgent.q).t = "garbage"   \* ReadMessage returns an error: "read error: ..."
+          /\ RFail("read error")
+          /\ fromAgent' = [fromAgent EXCEPT !.q = Tail(@)]
        \/ /\ fromAgent.q = <<>> /\ fromAgent.closed          \* io.EOF: return nil - no error, no abort
           /\ reader' = [reader EXCEPT !.pc = "done"]
           /\ outClosed' = TRUE
-          /\ UNCHANGED fromAgent
-    /\ UNCHANGED <<pump, caller, results, stopper, stopRet, outs, owner, mu, want, flags, err, writer, toAgent,
+          /\ UNCHANGED <<fromAgent, err, want>>
+    /\ UNCHANGED <<pump, caller, results, stopper, stopRet, outs, owner, mu, flags, writer, toAgent,
                    agent, kaBuf, respC, ticker, watcher, crashed, diag, wireSeen>>
 \* the select that feeds the keepalive watchdog, then the dispatch
 RHandle ==
@@ -520,7 +535,7 @@ Internal(c, active) ==
     \/ PumpSeesAbort
     \/ (active /\ (CallEnter(c) \/ CallAborted(c) \/ CallReturn(c) \/ CallReaderGone(c) \/ WTakeCall(c)))
     \/ WTakeIn \/ WInClosed \/ WTakeTick \/ WReqClosed \/ WExit \/ WAborting \/ WWrite
-    \/ AStep \/ AEOF
+    \/ AStep \/ AEOF \/ AgentDies
     \/ RRead \/ RHandle \/ ROut \/ ROutAborted
     \/ Tick \/ TickAborted \/ TickStop \/ WatchFeed \/ WatchStop \/ WatchTimeout
     \/ LockStop \/ (\E g \in want : LockAbort(g) \/ SignalAbort(g)) \/ A1 \/ A2 \/ A3 \/ S1 \/ S2 \/ S3
@@ -549,7 +564,7 @@ TypeOK ==
     /\ caller.pc \in {"idle", "enter", "pending", "waiting"}
     /\ writer.pc \in {"select", "write", "done"} /\ reader.pc \in {"read", "got", "out", "done"}
     /\ kaBuf \in 0 .. 1 /\ \A k \in ReqKinds : Len(respC[k]) <= 1
-    /\ Len(toAgent.q) <= PipeCap /\ Len(fromAgent.q) <= PipeCap
+    /\ Len(toAgent.q) <= PipeCap /\ Len(fromAgent.q) <= PipeCap + 2
     /\ mu.who \in {NIL, "S", "R", "W", "K", "O"}
 
 NoProcessCrash == ~crashed
@@ -572,17 +587,18 @@ StopDrains ==
 ClosedIsFinal == outClosed => reader.pc = "done"
 
 \* the response handed to a call is the peer's answer to exactly that request
+Unsol == {"unsolInfo", "unsolInit", "unsolSnapshot", "unsolRestore"}
 ResponsesMatchRequests ==
-    (Faults \cap {"unsolSnapshot", "unsolRestore"} = {}) =>
+    (Faults \cap Unsol = {}) =>
         \A i \in 1 .. Len(results) : results[i].err = NIL => results[i].val.rid = results[i].rid
 \* ... and the snapshot reflects the data that went to the peer before the request, none that went after the call returned
 SnapshotPosition ==
-    (Faults \cap {"unsolSnapshot", "unsolRestore"} = {}) =>
+    (Faults \cap Unsol = {}) =>
         \A i \in 1 .. Len(results) : (results[i].err = NIL /\ results[i].kind = "snapshot") =>
             results[i].lo <= results[i].val.val.seen /\ results[i].val.val.seen <= results[i].hi
 \* snapshot/restore carries the bytes through: a snapshot taken after a successful restore of d reports d
 SnapshotRoundTrip ==
-    (Faults \cap {"unsolSnapshot", "unsolRestore"} = {}) =>
+    (Faults \cap Unsol = {}) =>
         \A i, j \in 1 .. Len(results) :
             (i < j /\ results[i].kind = "restore" /\ results[i].err = NIL /\ results[j].kind = "snapshot" /\ results[j].err = NIL
              /\ \A k \in (i + 1) .. (j - 1) : results[k].kind # "restore")
